@@ -49,6 +49,30 @@ Theorem C11_delivery_independent : forall chain h0 hash0 ops1 ops2,
   view_eq (run (fresh h0 hash0) ops1) (run (fresh h0 hash0) ops2).
 Proof. exact delivery_independent. Qed.
 
+(** * Monitor updates that arrive after the closing transaction confirmed ([AU]) *)
+
+(** A late update never makes a transaction appear at another height or in another block: the entry it
+    queues is stamped with the spend's own txid, height and block (not with the tip). *)
+Theorem C11_late_update_stamped_with_spend : forall st dep tag x,
+  In x (relevant_txids (step st (AU dep tag))) -> In x (relevant_txids st).
+Proof. exact au_stamped_with_spend. Qed.
+
+(** For ANY operation list, late updates included, all awaiting entries of one transaction sit at one
+    height in one block; since [blocks_disconnected], the reorg branch of [best_block_updated] and
+    [transaction_unconfirmed] filter on the height alone, an entry created by a late update is retracted
+    exactly when the transaction it depends on is. *)
+Theorem C11_entries_coherent : forall ops st, coherent (awaiting st) -> coherent (awaiting (run st ops)).
+Proof. exact run_coherent. Qed.
+
+(** The shallow-fork theorem with late updates (about transactions of the common chain) applied at any
+    points while the fork is connected. *)
+Theorem C11_shallow_reorg_retracts_with_updates : forall st fs fp,
+  Forall (fun e => e_height e <= best_h st) (awaiting st) ->
+  fork_ops_ok (best_h st) (best_h st) st fs -> count_blocks fs < ANTI_REORG_DELAY ->
+  b_height fp = best_h st ->
+  step (run st (map fop_full fs)) (BD fp) = step (run st (map fop_empty fs)) (BD fp).
+Proof. exact shallow_reorg_retracts_with_updates. Qed.
+
 (** Non-vacuity: a commitment (CSV 144 on its delayed output) at height 101, an HTLC claim at 103, then
     empty blocks; delivered as whole blocks, and transactions-first with the best block updated only
     every third block plus a duplicate. *)
@@ -80,3 +104,16 @@ Example C11_fork_example :
   step (run st (map BC fork)) (BD (ex_blk 102)) = step (run st (map BC (map empty_blk fork))) (BD (ex_blk 102)) /\
   awaiting (step (run st (map BC fork)) (BD (ex_blk 102))) = awaiting st.
 Proof. vm_compute. repeat split; repeat constructor; intuition discriminate. Qed.
+
+(** a late update at depth 3 of the closing transaction 11, then a two-block reorganisation that does
+    not reach block 101: the queued consequence (tag 9) survives and is concluded at 106, like the
+    commitment's own event; had it been stamped with the tip (103) the [BD] would have erased it *)
+Example C11_late_update_example :
+  let st := run (fresh 100 1100) (map BC (map ex_blk [101; 102; 103]) ++ [AU 11 9]) in
+  relevant_txids st = [(11, 101, 1101); (11, 101, 1101); (12, 103, 1103); (12, 103, 1103); (11, 101, 1101)] /\
+  relevant_txids (step st (BD (ex_blk 101))) = [(11, 101, 1101); (11, 101, 1101); (11, 101, 1101)] /\
+  map (fun m => (m_txid m, m_tag m, m_conf m, m_at m))
+      (emitted (run (step st (BD (ex_blk 101))) (map BC (map empty_blk (map ex_blk [102; 103; 104; 105; 106])))))
+    = [(11, 1, 101, 106); (11, 9, 101, 106)].
+Proof. vm_compute. repeat split. Qed.
+
